@@ -238,8 +238,11 @@ pub fn ir() -> &'static Ir {
                             kind,
                             param_id,
                             safety: a["safety"].as_str().map(|s| s.to_string()),
-                            legacy_safe: !a["markers"].as_array().unwrap().is_empty()
-                                || a["tags"].as_array().unwrap().iter().any(|t| t == "safe"),
+                            // only com.palantir.logsafe.Safe is the legacy safe marker
+                            legacy_safe: a["markers"].as_array().unwrap().iter().any(|m| {
+                                let r = &m["external"]["externalReference"];
+                                r["package"] == "com.palantir.logsafe" && r["name"] == "Safe"
+                            }) || a["tags"].as_array().unwrap().iter().any(|t| t == "safe"),
                         }
                     })
                     .collect();
